@@ -157,10 +157,9 @@ pub fn run_c07(case: &Case) -> Outcome {
     // pending bind requests are flows in use: a colliding Connect of the peer must leave them undisturbed
     let mut bind_collision = false;
     for (k, b) in case.binds.iter().enumerate() {
-        let tag = format!("b{k}.").into_bytes();
-        let sent = run.events.iter().enumerate().find_map(|(i, e)| if let Ev::Sent { side, msg: WMsg::Frame(RFrame::Bind { id, host, .. }), .. } = &e.ev { if *side == b.side && host.starts_with(&tag) { Some((i, *id)) } else { None } } else { None });
+        let sent = run.events.iter().enumerate().find_map(|(i, e)| if let Ev::Sent { side, msg: WMsg::Frame(RFrame::Bind { id, host, .. }), .. } = &e.ev { if *side == b.side && parse_bind_tag(host) == Some(k) { Some((i, *id)) } else { None } } else { None });
         let Some((sent_at, id)) = sent else { continue };
-        let answer = run.app_events().find_map(|(_, e)| if let AppEv::BindSeen { host, answer, .. } = e { if host.starts_with(&tag) { Some(answer.clone()) } else { None } } else { None });
+        let answer = run.app_events().find_map(|(_, e)| if let AppEv::BindSeen { host, answer, .. } = e { if parse_bind_tag(host) == Some(k) { Some(answer.clone()) } else { None } } else { None });
         let resolved = run.events.iter().enumerate().find_map(|(i, e)| if let Ev::App(AppEv::BindResolved { idx, result, .. }) = &e.ev { if *idx == k { Some((i, result.clone())) } else { None } } else { None });
         let until = resolved.as_ref().map(|r| r.0).unwrap_or(run.events.len());
         let hit = run.events[sent_at..until].iter().any(|e| matches!(&e.ev, Ev::Recv { side, msg: WMsg::Frame(RFrame::Connect { id: c, .. }) } if *side == b.side && *c == id));
@@ -223,6 +222,29 @@ fn c07_real() -> impl Strategy<Value = Case> {
             Case { opts: [o0, o1], rng: [ids0, ids1], streams, schedule, binds, bind_policy: [bp.clone(), bp], ..Case::default() }
         },
     )
+}
+
+/// Streams whose target host is an entry of `vf_common::host_dictionary()` as it stands (see `VERBATIM_MARK`).
+pub fn meaningful_host_case(i: u64) -> Case {
+    let dict = vf_common::host_dictionary();
+    let k = (i as usize) % dict.len();
+    let side = (i as usize / dict.len()) % 2;
+    let k2 = (k + 37) % dict.len();
+    let mk = |side: usize, port: u16, host: &[u8]| StreamSpec {
+        side,
+        port,
+        pad: [VERBATIM_MARK, host].concat(),
+        delay: 0,
+        park: None,
+        cancel: None,
+        ends: [EndScript { w: vec![WOp::Write(5), WOp::Shutdown], r: vec![ROp::ToEof(64)] }, EndScript { w: vec![WOp::Write(3), WOp::Shutdown], r: vec![ROp::ToEof(64)] }],
+    };
+    let mut streams = vec![mk(side, 443, &dict[k])];
+    if dict[k2] != dict[k] {
+        streams.push(mk(1 - side, 80, &dict[k2]));
+    }
+    streams.push(StreamSpec { side, port: 8080, pad: dict[k].clone(), delay: 0, park: None, cancel: None, ends: [EndScript { w: vec![WOp::Write(2), WOp::Shutdown], r: vec![ROp::ToEof(64)] }, EndScript { w: vec![WOp::Shutdown], r: vec![ROp::ToEof(64)] }] });
+    Case { streams, ..Case::default() }
 }
 
 /// initial credit equals the window the other side advertised: nobody reads, both ends write window+3 frames
@@ -415,7 +437,7 @@ pub fn run_cancelled_request(case: &Case) -> Outcome {
         }
 
 pub fn c07(ctx: &Ctx, rep: &mut Report) {
-    rep.rule = "concurrent opens from both sides with arbitrary host bytes (0..300) and ports, max_flow_id_retries 1..4, scripted id sequences over {0,1,2,3} (collisions with live flows - established streams, pending stream requests and pending bind requests -, with the peer's simultaneous choice, id 0); \
+    rep.rule = "concurrent opens from both sides with arbitrary host bytes (0..300) and ports (and a directed family in which every entry of a dictionary of 130 hosts that mean something to some layer - IP literals in every notation, bracketed IPv6 literals, names with ports, letter case, trailing dots, control characters - is requested verbatim from either side), max_flow_id_retries 1..4, scripted id sequences over {0,1,2,3} (collisions with live flows - established streams, pending stream requests and pending bind requests -, with the peer's simultaneous choice, id 0); \
                 a raw peer that rejects the first k Connects and injects Connects with id 0 / live ids; a non-reading-peer family for the initial credit (all 64 pairs of windows 1..64, and windows 300/1000/4097/10000/65535/65536/65537/70000 advertised by the opener or by the acceptor). Oracle: one request = one accepted stream with exactly the requested host/port, \
                 no Connect with id 0 or a live id, Reset for id 0 / in-use ids, exactly min(k+1,retries) attempts and FlowIdRejected iff k >= retries, initial credit == advertised window. \
                 Non-trivial = a forced collision/rejection occurred or >= 2 opens were in flight at once. Distinct = distinct case value."
@@ -424,6 +446,14 @@ pub fn c07(ctx: &Ctx, rep: &mut Report) {
     let t = ctx.tier;
     ctx.prop(rep, "real-peers", t.pick(40_000, 1_500_000), 300, || with_keepalive(c07_real()), run_c07);
     ctx.prop(rep, "raw-rejections", t.pick(20_000, 500_000), 300, || with_keepalive(c07_raw()), run_c07_raw);
+    // target hosts that mean something to some layer, requested VERBATIM (no stream tag in front): every entry of the dictionary from
+    // either side, together with a second such stream opened by the other side and an ordinary tagged one
+    ctx.enumerate(rep, "meaningful-hosts", 2 * vf_common::host_dictionary().len() as u64, 64, meaningful_host_case, |c| {
+        let mut o = run_c07(c);
+        o.nontrivial = true;
+        o.classes.push("meaningful-host-verbatim");
+        o
+    });
     // an accepting application that is busy while more streams are requested than its accept queue holds (stream_buffer_size):
     // every request that succeeds must still end up as exactly one accepted stream once the application gets to it
     ctx.prop(
@@ -1139,14 +1169,10 @@ pub fn run_c15(case: &Case) -> Outcome {
     let mut wire: BTreeMap<usize, (u32, u8, u16, Vec<u8>, usize)> = BTreeMap::new();
     for (idx, st) in run.events.iter().enumerate() {
         if let Ev::Sent { side, msg: WMsg::Frame(RFrame::Bind { id, btype, port, host }), .. } = &st.ev {
-            if host.first() == Some(&b'b') {
-                if let Some(dot) = host.iter().position(|b| *b == b'.') {
-                    if let Ok(k) = std::str::from_utf8(&host[1..dot]).unwrap_or("x").parse::<usize>() {
-                        if k < case.binds.len() && case.binds[k].side == *side {
-                            if wire.insert(k, (*id, *btype, *port, host.clone(), idx)).is_some() {
-                                viol!(a, "c15-bind-sent-twice", "bind request {k} was put on the wire twice");
-                            }
-                        }
+            if let Some(k) = parse_bind_tag(host) {
+                if k < case.binds.len() && case.binds[k].side == *side {
+                    if wire.insert(k, (*id, *btype, *port, host.clone(), idx)).is_some() {
+                        viol!(a, "c15-bind-sent-twice", "bind request {k} was put on the wire twice");
                     }
                 }
             }
@@ -1157,8 +1183,7 @@ pub fn run_c15(case: &Case) -> Outcome {
     let mut seen_order = vec![];
     for (idx, st) in run.events.iter().enumerate() {
         if let Ev::App(AppEv::BindSeen { side, flow_id, btype, host, port, answer }) = &st.ev {
-            let k = host.iter().position(|b| *b == b'.').and_then(|dot| std::str::from_utf8(&host[1..dot]).ok()?.parse::<usize>().ok());
-            let Some(k) = k.filter(|k| *k < case.binds.len() && host.first() == Some(&b'b')) else {
+            let Some(k) = parse_bind_tag(host).filter(|k| *k < case.binds.len()) else {
                 viol!(a, "c15-unknown-request-shown", "side {side} was shown a bind request nobody made: host {host:?}");
             };
             if case.binds[k].side == *side {
@@ -1177,8 +1202,7 @@ pub fn run_c15(case: &Case) -> Outcome {
         }
     }
     for (k, b) in case.binds.iter().enumerate() {
-        let mut want_host = format!("b{k}.").into_bytes();
-        want_host.extend_from_slice(&b.host);
+        let want_host = bind_host(k, &b.host);
         let res = resolved.get(&k).cloned().unwrap_or_default();
         if res.len() > 1 {
             viol!(a, "c15-resolved-twice", "request {k} resolved {} times", res.len());
@@ -1312,7 +1336,7 @@ pub fn run_c15_reuse(case: &Case) -> Outcome {
 }
 
 pub fn c15(ctx: &Ctx, rep: &mut Report) {
-    rep.rule = "1-6 concurrent bind requests from either side (both types, hosts 0..300 bytes, all ports), responder policies {accept, reject, drop, hold} answered in batches in a generated permutation, binds disabled on a side, interleaved stream and datagram traffic (in half of the cases all flow ids of both sides come from one short list, so stream requests collide with pending bind requests), optional connection end at a generated step; \
+    rep.rule = "1-6 concurrent bind requests from either side (both types, hosts 0..300 bytes, all ports; a directed family requests every entry of the dictionary of meaningful hosts verbatim), responder policies {accept, reject, drop, hold} answered in batches in a generated permutation, binds disabled on a side, interleaved stream and datagram traffic (in half of the cases all flow ids of both sides come from one short list, so stream requests collide with pending bind requests), optional connection end at a generated step; \
                 oracle: each request resolves at most once and (unless legitimately held) exactly once, true iff the peer application accepted that very request (matched by host tag and flow id on the wire), false for reject/drop/disabled, false or Closed after connection end; the responder sees exactly the requested type/host/port/flow id; \
                 reuse probe: the id is proposed again by the next open. Non-trivial = >= 2 requests answered out of order, an answer racing with teardown, or a peer Connect on the id of a pending request. Distinct = distinct case value."
         .into();
@@ -1320,6 +1344,28 @@ pub fn c15(ctx: &Ctx, rep: &mut Report) {
     rep.assumptions.push("the responder drops a BindRequest only as the 'drop' answer; after reply() the request object is kept until the responder ends (BindRequest::drop always sends a Reset, documented behaviour)".into());
     let t = ctx.tier;
     ctx.prop(rep, "binds", t.pick(40_000, 1_200_000), 300, || with_keepalive(c15_case()), run_c15);
+    // bind hosts that mean something to some layer, requested VERBATIM: the responder must be shown exactly these octets. Every
+    // dictionary entry as a stream bind and as a datagram bind, accepted or rejected, next to an ordinary request and a stream
+    ctx.enumerate(rep, "meaningful-hosts", 2 * vf_common::host_dictionary().len() as u64, 64, |i| {
+        let dict = vf_common::host_dictionary();
+        let k = (i as usize) % dict.len();
+        let dgram = (i as usize / dict.len()) % 2 == 1;
+        let side = k % 2;
+        let k2 = (k + 53) % dict.len();
+        let mut binds = vec![BindSpec { side, dgram, host: [VERBATIM_MARK, &dict[k][..]].concat(), port: 8080, delay: 0 }, BindSpec { side, dgram: !dgram, host: dict[k].clone(), port: 81, delay: 1 }];
+        if dict[k2] != dict[k] {
+            binds.push(BindSpec { side: 1 - side, dgram, host: [VERBATIM_MARK, &dict[k2][..]].concat(), port: 53, delay: 0 });
+        }
+        let bp = BindPolicy { answers: vec![if k % 3 == 0 { BindAnswer::Reject } else { BindAnswer::Accept }, BindAnswer::Accept, BindAnswer::Accept], batch: 1, order: vec![], enabled: true, ping_first: k % 5 == 0 };
+        let mut o = OptsSpec::default();
+        o.bind_buf = 4;
+        Case { opts: [o.clone(), o], binds, bind_policy: [bp.clone(), bp], ..Case::default() }
+    }, |c| {
+        let mut o = run_c15(c);
+        o.nontrivial = true;
+        o.classes.push("meaningful-host-verbatim");
+        o
+    });
     // a harness-driven peer: other well-formed frames on the id of a pending bind request (a late credit frame of an earlier stream
     // with that id, a stray Push or Connect) arrive before the peer's actual answer; only the answer - Finish = accepted, Reset =
     // refused - decides the request, and other requests are untouched
@@ -1413,7 +1459,7 @@ fn c11_case() -> impl Strategy<Value = Case> {
     let dg = (
         0usize..2,
         prop_oneof![1 => Just(0u32), 4 => 0u32..8, 1 => any::<u32>()],
-        prop_oneof![3 => prop::sample::select(vec![0u16, 1, 2, 254, 255, 256, 300]), 3 => 0u16..=300, 3 => 3u16..20],
+        prop_oneof![3 => prop::sample::select(vec![0u16, 1, 2, 254, 255, 256, 300]), 3 => 0u16..=300, 3 => 3u16..20, 2 => (0u16..200).prop_map(|k| DG_DICT as u16 + k)],
         prop_oneof![prop::sample::select(vec![0u16, 1, 53, 65535]), any::<u16>()],
         prop_oneof![6 => prop::sample::select(vec![0u32, 1, 2, 3, 4, 5]), 2 => Just(100u32), 1 => Just(1500u32), 1 => Just(65_535u32)],
         0u8..2,
@@ -1465,17 +1511,18 @@ pub fn run_c11(case: &Case) -> Outcome {
                     continue;
                 }
                 let d = &case.dgrams[*idx];
-                if d.host_len > 255 {
+                let hl = dg_host_len(d.host_len as usize);
+                if hl > 255 {
                     if ok.as_ref().err().map(String::as_str) != Some("DatagramHostTooLong") {
-                        viol!(a, "c11-long-host-accepted", "datagram {idx} with a {}-byte host returned {ok:?}", d.host_len);
+                        viol!(a, "c11-long-host-accepted", "datagram {idx} with a {hl}-byte host returned {ok:?}");
                     }
                     boundary = true;
                 } else {
                     if let Err(e) = ok {
-                        viol!(a, "c11-send-refused", "datagram {idx} (host {} bytes, payload {} bytes) refused: {e}", d.host_len, d.data_len);
+                        viol!(a, "c11-send-refused", "datagram {idx} (host {} bytes, payload {} bytes) refused: {e}", hl, d.data_len);
                     }
                     sent.push((d.flow_id, dg_host(*idx, d.host_len as usize), d.port, dg_data(*idx, d.data_len as usize)));
-                    if matches!(d.host_len, 0 | 1 | 255) || d.data_len <= 3 {
+                    if matches!(hl, 0 | 1 | 255) || d.data_len <= 3 || d.host_len as usize >= DG_DICT {
                         boundary = true;
                     }
                 }
@@ -1548,12 +1595,25 @@ pub fn run_c11(case: &Case) -> Outcome {
 }
 
 pub fn c11(ctx: &Ctx, rep: &mut Report) {
-    rep.rule = "1-24 datagrams from either side over the full field domain (flow ids incl. 0 and the ids of the streams open on the same connection, host length 0..300, all ports, payload length {0..5,100,1500,65535}), datagram_buffer_size in {1,2,8,512}, receivers eager / idle during the burst / intermittent, 0-2 complete streams on the same connection; \
+    rep.rule = "1-24 datagrams from either side over the full field domain (flow ids incl. 0 and the ids of the streams open on the same connection, host length 0..300 of arbitrary octets or an entry of a dictionary of 130 hosts that mean something to some layer - IP literals in every notation, bracketed IPv6 literals, names with ports, letter case, dots, control characters -, all ports, payload length {0..5,100,1500,65535}), datagram_buffer_size in {1,2,8,512}, receivers eager / idle during the burst / intermittent, 0-2 complete streams on the same connection; \
                 oracle: host > 255 refused with DatagramHostTooLong and nothing on the wire, received list is a subsequence of the sent list with all four fields equal, loss only on buffer overflow (idle receiver: exactly the first `capacity`), the connection never ends and streams complete with C02/C03/C05 oracles. \
                 Non-trivial = a host or payload at a boundary (host 0/1/255/>255, payload 0-3) or a burst larger than the buffer. Distinct = distinct case value."
         .into();
     rep.assumptions = sim_assumptions();
     ctx.prop(rep, "datagrams", ctx.tier.pick(40_000, 1_200_000), 300, || with_keepalive(c11_case()), run_c11);
+    // every host of the dictionary of hosts that mean something to some layer, as the whole target host of a datagram from either side
+    ctx.enumerate(rep, "meaningful-hosts", vf_common::host_dictionary().len() as u64, 64, |i| {
+        let n = vf_common::host_dictionary().len() as u64;
+        let dgrams = (0..4u64).map(|j| DgSpec { side: ((i + j) % 2) as usize, flow_id: (j as u32) * 0x0101_0101, host_len: (DG_DICT as u64 + (i + 31 * j) % n) as u16, port: 53 + j as u16, data_len: j as u32 * 3, delay: 0 }).collect();
+        let mut o = OptsSpec::default();
+        o.dgram_buf = 8;
+        Case { opts: [o.clone(), o], dgrams, dg_readers: [DgReader::Eager, DgReader::Eager], ..Case::default() }
+    }, |c| {
+        let mut o = run_c11(c);
+        o.nontrivial = true;
+        o.classes.push("meaningful-host-verbatim");
+        o
+    });
     // with keepalive configured (clock engine of C16, exact virtual time): a steady one-way datagram flow to a live peer
     ctx.enumerate(rep, "datagram-flow-with-keepalive", super::keepalive::DATAGRAM_FLOW_CASES, 6, super::keepalive::datagram_flow_case, super::keepalive::check_datagram_flow);
 }
